@@ -197,6 +197,7 @@ structure Flags where
   trackReaching : Bool := true
   takeValuedNamed : Bool := true
   skipRecordsInput : Bool := false
+  dupIsError : Bool := true
 deriving Repr
 
 def behFromTrace (sc : Scn) (execs : List ExecEv) : Nat → Nat → List PVal → BehOut :=
@@ -241,6 +242,8 @@ structure RunOut where
   outcome : Outcome
   log     : List ExecEv
   stats   : List String
+  memo    : List (Nat × Memo) := []
+  count   : List (Nat × Nat) := []
 
 def dumpOf (c : CG) : List String × List String :=
   let vs := c.g.verts.map (fun v => showVtx v ++ (if (c.valueOf v).isSome then "=v" else ""))
@@ -253,7 +256,7 @@ def Scn.builder (sc : Scn) : BuildOutcome := buildFor (sc.opts.take sc.defaults)
 def fuelFor (sc : Scn) : Nat := 4 * sc.fns.length + 8
 
 def replayRun (fl : Flags) (sc : Scn) (b : Builder) (cgr : CallGraphResult) (target : FuncDesc) (evs : List Ev)
-    (auto : Bool) : RunOut :=
+    (auto : Bool) (convertRun : Bool := false) (memo0 : List (Nat × Memo) := []) (count0 : List (Nat × Nat) := []) : RunOut :=
   let (items, dij) := buildOracle evs
   let execs := execsOf evs
   -- Dijkstra replay of every chosen path
@@ -264,19 +267,25 @@ def replayRun (fl : Flags) (sc : Scn) (b : Builder) (cgr : CallGraphResult) (tar
       let mp := choosePath cgr.cg.g cur pops
       if mp ≠ path then some s!"path_for_{showVtx cur}_model={" ".intercalate (mp.map showVtx)}_impl={" ".intercalate (path.map showVtx)}"
       else none)
-  let ctx : Ctx := { env := sc.env, g := cgr.cg.g, funcOf := sc.funcOfKey b.convs, beh := behFromTrace sc execs,
+  -- `Convert` runs the library's own identity function, whose body the harness cannot instrument:
+  -- its behaviour is known (it returns its argument) and its execution is not in the trace
+  let behT := behFromTrace sc execs
+  let beh : Nat → Nat → List PVal → BehOut := fun fid nth args =>
+    if convertRun && fid == 0 then { outs := args.map (·.id), err := none } else behT fid nth args
+  let ctx : Ctx := { env := sc.env, g := cgr.cg.g, funcOf := sc.funcOfKey b.convs, beh := beh,
                      memoCopy := fl.memoCopy, publishAfterUpdate := fl.publishAfterUpdate,
                      trackReaching := fl.trackReaching, takeValuedNamed := fl.takeValuedNamed,
                      skipRecordsInput := fl.skipRecordsInput, auto := auto }
-  let (o, st) := callWith ctx cgr target (fuelFor sc) (initSt cgr.cg [] items)
+  let (o, st) := callWith ctx cgr target (fuelFor sc) { initSt cgr.cg memo0 items with count := count0 }
   let ires := resOf evs
   let c2 := if showOutcome sc o = showImplRes ires then none
             else some s!"outcome_model=[{noSpace (showOutcome sc o)}]_impl=[{noSpace (showImplRes ires)}]"
-  let c3 := if st.log.map showExec = execs.map showExec then none
-            else some s!"execlog_model=[{";".intercalate (st.log.map showExec)}]_impl=[{";".intercalate (execs.map showExec)}]"
+  let mlog := if convertRun then st.log.filter (fun e => e.fid != 0) else st.log
+  let c3 := if mlog.map showExec = execs.map showExec then none
+            else some s!"execlog_model=[{";".intercalate (mlog.map showExec)}]_impl=[{";".intercalate (execs.map showExec)}]"
   let c4 := if st.orc.isEmpty then none else some "trace_has_unused_reach_events"
   { conform := c1.or (c3.or (c2.or c4)), outcome := o, log := st.log,
-    stats := [s!"paths={dij.length}"] }
+    stats := [s!"paths={dij.length}"], memo := st.memo, count := st.count }
 
 /-! ### property predicates on the real trace -/
 
@@ -463,7 +472,7 @@ def runPredicates (sc : Scn) (fx : Facts) (evs : List Ev) : List (String × Opti
 
 def verdictStr (v : Option String) : String := match v with | none => "ok" | some m => "FAIL:" ++ noSpace m
 
-def runCall (fl : Flags) (b : Block) : Res :=
+def runCall (fl : Flags) (b : Block) (conv : Bool := false) : Res :=
   if (field b "builderr").isSome then
     { conform := some s!"harness_builderr_{noSpace (" ".intercalate ((field b "builderr").getD []))}" , propNA := true }
   else
@@ -472,7 +481,8 @@ def runCall (fl : Flags) (b : Block) : Res :=
   | some m, _ => { conform := some s!"model_rejects_{noSpace m}", propNA := true }
   | _, none => { conform := some "no_target", propNA := true }
   | none, some target =>
-  let runs := splitRuns b.lines
+  let runsX := splitRunsWith ["cv"] b.lines
+  let runs := runsX.map (fun r => r.1)
   match sc.builder with
   | .nilArg | .optErr _ =>
     let ok := runs.all (fun r => let t := resOf r; t = ["err", "nilarg"] ∨ t = ["err", "notfunc"])
@@ -499,7 +509,12 @@ def runCall (fl : Flags) (b : Block) : Res :=
       else none
   let fx := mkFacts sc bld target
   -- a run that killed the process left no trace: the model runs on its own (greedy oracle) and must diverge too
-  let outs := runs.map (fun evs => (replayRun fl sc bld cgr target evs ((resOf evs).head? == some "crash"), runPredicates sc fx evs, evs))
+  let outs := runsX.map (fun rx => let evs := rx.1
+    -- in a `Convert` run the target (the library's own identity function) is not instrumented:
+    -- the exact-match predicate, which looks at the target's execution, does not apply
+    let preds := runPredicates sc fx evs
+    let preds := if conv && !rx.2.isEmpty then preds.filter (fun p => p.1 != "C03") else preds
+    (replayRun fl sc bld cgr target evs ((resOf evs).head? == some "crash") (conv && !rx.2.isEmpty), preds, evs))
   let conform := cd.or (outs.findSome? (fun o => o.1.conform))
   -- aggregate predicates over runs
   let pids := ["C01", "C02", "C03", "C04", "C06", "C13"]
@@ -543,13 +558,33 @@ def runCall (fl : Flags) (b : Block) : Res :=
   let firstOutcome := outcomeClass (resOf (runs.headD []))
   let nexec := ((runs.headD []).filter (fun e => match e with | .exec .. => true | _ => false)).length
   let depth := (outs.map (fun o => ((buildOracle o.2.2).1).length)).foldl Nat.max 0
+  -- C10: Convert returns a value exactly when the call on the identity function succeeds; the value
+  -- is assignable to the target type; on failure the value is nil
+  let c10 : String :=
+    if !conv then "na" else
+    let cvRuns := runsX.filter (fun r => !r.2.isEmpty)
+    let callRuns := runsX.filter (fun r => r.2.isEmpty)
+    match cvRuns.findSome? (fun r =>
+      let cvl := (r.2.headD []).drop 1
+      let ires := resOf r.1
+      if isPanicRes ires then some s!"convert_{outcomeClass ires}"
+      else if isOkRes ires ∧ (kv cvl "assignable").getD "" ≠ "true" then some "converted_value_not_assignable_to_the_target_type"
+      else if isErrRes ires ∧ (kv cvl "nilvalue").getD "" ≠ "true" then some "error_returned_together_with_a_non-nil_value"
+      else none) with
+    | some m => "FAIL:" ++ noSpace m
+    | none =>
+      let cc := (callRuns.map (fun r => isOkRes (resOf r.1))).eraseDups
+      let vc := (cvRuns.map (fun r => isOkRes (resOf r.1))).eraseDups
+      if !fx.scripted ∧ (fx.singleIn ∨ (fx.acyclic ∧ fx.allConvSat)) ∧ cc.length = 1 ∧ vc.length = 1 ∧ cc ≠ vc then
+        s!"FAIL:convert_succeeds={vc}_but_call_on_identity_succeeds={cc}"
+      else "ok"
   let c08 : String :=
     if fam = "redefcall" then
       (match runs.find? (fun r => let c := outcomeClass (resOf r); c == "unsat" || c == "missingarg") with
        | some r => s!"FAIL:redefined_function_failed_for_lack_of_an_argument_{noSpace (showImplRes (resOf r))}"
        | none => "ok")
     else "na"
-  { conform := conform, propNA := true, props := agg ++ [("C05", c05), ("C07", c07), ("C08", c08)],
+  { conform := conform, propNA := true, props := agg ++ [("C05", c05), ("C07", c07), ("C08", c08), ("C10", c10)],
     stats := [s!"outcome={firstOutcome}", s!"execs={nexec}", s!"convs={fx.convs.length}", s!"depth={depth}",
               s!"class={if fx.exactAll then "exact" else if !fx.underiv.isEmpty then "underiv" else "deriv"}",
               s!"runs={runs.length}"] }
